@@ -9,7 +9,7 @@ from symoas import kernels, pipe
 from symoas.sym import S, ZERO, symarray, var
 
 
-def aeropoint_problem(surfaces, rotational=False, compressible=False, meshes=None, vals=None):
+def aeropoint_problem(surfaces, rotational=False, compressible=False, meshes=None, vals=None, user_specified_Sref=False):
     """Problem with an IndepVarComp for the flight condition and the deformed meshes, and a real AeroPoint."""
     import openmdao.api as om
     from openaerostruct.aerodynamics.aero_groups import AeroPoint
@@ -22,13 +22,16 @@ def aeropoint_problem(surfaces, rotational=False, compressible=False, meshes=Non
         ivc.add_output(n, val=vals.get(n, v), units=u)
     if rotational:
         ivc.add_output("omega", val=vals.get("omega", np.zeros(3)), units="rad/s")
+    if user_specified_Sref:
+        ivc.add_output("S_ref_total", val=vals.get("S_ref_total", 10.0), units="m**2")
     for s in surfaces:
         m = s["mesh"] if meshes is None else meshes[s["name"]]
         ivc.add_output(s["name"] + "_def_mesh", val=np.asarray(m, dtype=float), units="m")
         ivc.add_output(s["name"] + "_t_over_c", val=vals.get(s["name"] + "_t_over_c", np.full(s["mesh"].shape[1] - 1, 0.12)))
     prob.model.add_subsystem("flight", ivc, promotes=["*"])
-    prom = ["v", "alpha", "beta", "Mach_number", "re", "rho", "cg"] + (["omega"] if rotational else [])
-    prob.model.add_subsystem("aero_point_0", AeroPoint(surfaces=surfaces, rotational=rotational, compressible=compressible), promotes_inputs=prom)
+    prom = ["v", "alpha", "beta", "Mach_number", "re", "rho", "cg"] + (["omega"] if rotational else []) + (["S_ref_total"] if user_specified_Sref else [])
+    prob.model.add_subsystem("aero_point_0", AeroPoint(surfaces=surfaces, rotational=rotational, compressible=compressible,
+                                                       user_specified_Sref=user_specified_Sref), promotes_inputs=prom)
     for s in surfaces:
         n = s["name"]
         prob.model.connect(n + "_def_mesh", "aero_point_0." + n + ".def_mesh")
@@ -52,4 +55,55 @@ def aeropoint_symbolic(surfaces, meshes, external=None, rotational=False, circul
     if circulations is not None:
         states["aero_point_0.aero_states.solve_matrix.circulations"] = circulations
     G.run(external=ext, states=states)
+    return G
+
+
+def aerostruct_problem(surface, vals=None):
+    """One-surface aerostructural model wired as in the documentation / tests/integration_tests/test_aerostruct.py."""
+    import openmdao.api as om
+    from openaerostruct.integration.aerostruct_groups import AerostructGeometry, AerostructPoint
+    from openaerostruct.utils.constants import grav_constant
+
+    vals = vals or {}
+    prob = om.Problem(reports=False)
+    ivc = om.IndepVarComp()
+    for n, v, u in (("v", 248.136, "m/s"), ("alpha", 5.0, "deg"), ("Mach_number", 0.84, None), ("re", 1.0e6, "1/m"), ("rho", 0.38, "kg/m**3"),
+                    ("CT", grav_constant * 17.0e-6, "1/s"), ("R", 11.165e6, "m"), ("W0", 0.4 * 3e5, "kg"), ("speed_of_sound", 295.4, "m/s"),
+                    ("load_factor", 1.0, None), ("empty_cg", np.zeros(3), "m")):
+        ivc.add_output(n, val=vals.get(n, v), units=u)
+    prob.model.add_subsystem("prob_vars", ivc, promotes=["*"])
+    name = surface["name"]
+    prob.model.add_subsystem(name, AerostructGeometry(surface=surface))
+    pt = "AS_point_0"
+    prob.model.add_subsystem(pt, AerostructPoint(surfaces=[surface]),
+                             promotes_inputs=["v", "alpha", "Mach_number", "re", "rho", "CT", "R", "W0", "speed_of_sound", "empty_cg", "load_factor"])
+    com = pt + "." + name + "_perf"
+    prob.model.connect(name + ".local_stiff_transformed", pt + ".coupled." + name + ".local_stiff_transformed")
+    prob.model.connect(name + ".nodes", pt + ".coupled." + name + ".nodes")
+    prob.model.connect(name + ".mesh", pt + ".coupled." + name + ".mesh")
+    prob.model.connect(name + ".radius", com + ".radius")
+    prob.model.connect(name + ".thickness", com + ".thickness")
+    prob.model.connect(name + ".nodes", com + ".nodes")
+    prob.model.connect(name + ".cg_location", pt + ".total_perf." + name + "_cg_location")
+    prob.model.connect(name + ".structural_mass", pt + ".total_perf." + name + "_structural_mass")
+    prob.model.connect(name + ".t_over_c", com + ".t_over_c")
+    with warnings.catch_warnings():
+        warnings.simplefilter("ignore")
+        prob.setup()
+        prob.final_setup()
+    return prob
+
+
+def aerostruct_symbolic(surface):
+    """GroupPipe over the real AerostructPoint (coupled group executed once in its own order; feedback connections and the
+    outputs of the geometry group are independent symbols)."""
+    from symoas.sym import bor, gt, lt
+
+    prob = aerostruct_problem(surface)
+
+    def big_loads(ins):  # loads well above the 1e-6 N zeroing threshold of CreateRHS (the property's admissible range)
+        return [bor(gt(x, 1e-6), lt(x, -1e-6)) for x in ins["total_loads"].ravel()]
+
+    G = pipe.GroupPipe(prob, root="AS_point_0", extra=kernels.EVAL_MTX_STUBS, skip=(".failure",), assume_for={"CreateRHS": big_loads})
+    G.run()
     return G
